@@ -15,6 +15,7 @@ import (
 	"github.com/elliotchance/gedcom/v39"
 	"verif/harness/gen"
 	"verif/harness/gx"
+	"verif/harness/ref"
 	"verif/harness/vlib"
 )
 
@@ -180,6 +181,13 @@ func runCase(r *vlib.Rec, k kase) {
 	doc, class := buildCase(k)
 	r.Count("route:" + k.Route + ":" + class)
 	if doc == nil {
+		// A text-route case is written in the encoder's own normal form. When
+		// the reference decoder reads it as a forest, a document with exactly
+		// that text exists (role nodes can be attached anywhere with AddNode),
+		// so the decoder must accept it.
+		if class == "text-rejected" && ref.Decode(k.Text, false, false).Outcome == ref.Accept {
+			r.Fail("normal-form-text-rejected", fmt.Sprintf("the decoder rejects text in the encoder's normal form: %q", k.Text), k)
+		}
 		return
 	}
 	sig, what := judge(doc)
@@ -357,6 +365,9 @@ func replay(c json.RawMessage) (string, string) {
 	json.Unmarshal(c, &k)
 	doc, class := buildCase(k)
 	if doc == nil {
+		if class == "text-rejected" && ref.Decode(k.Text, false, false).Outcome == ref.Accept {
+			return "normal-form-text-rejected", "the decoder rejects " + k.Text
+		}
 		return "", "case could not be built: " + class
 	}
 	sig, what := judge(doc)
